@@ -290,6 +290,8 @@ var GlobalAssumptions = []string{
 	"A2: float64 is verified as real arithmetic (no NaN/Inf/rounding)",
 	"A3: slices/strings are value sequences (backing array, offset, length); aliasing between distinct live slices is not modelled",
 	"A4: Go semantics as implemented by the gocv lowering (validated by the must-fail selftest corpus, not proved)",
+	"A5: pointers are owned boxes: two distinct pointer-typed variables/fields never alias the same object unless the contract says so (noalias/fresh rules check the places where the code would create such aliasing for C10/C19)",
+	"A6: inferred field frames: a callee leaves a struct field unchanged when neither it nor anything reachable from it in the over-approximate call graph (interface dispatch by method name; calls through function values reach every closure literal and every function used as a value) assigns the field, takes its address, stores a whole struct of that type through a pointer, hands a pointer to it to a library function, or - for non-scalar fields - mentions it in a function that is not syntactically read-only (sound under A5)",
 	"A7: an unsat answer from one SMT solver is accepted in the quick tier",
 	"A9: values of library struct types (zip.File, html.Node, ...) are opaque; library calls on them do not change the fields contracts read",
 }
